@@ -17,7 +17,7 @@ from vmon.libutil import load_definition, monitored
 
 LEVEL = "exploration"
 SHARDS = {"quick": 16, "thorough": 16}
-MUST = ["graph.walks", "graph.entry_kind_checks", "valid.parameter_and_container_share_a_name", "kind.repoint-to-other-kind", "graph.identity_checks", "graph.inheritor_checks", "corrupt.reject-expected", "corrupt.accept-expected",
+MUST = ["graph.walks", "valid.base_container_also_nested", "corrupt.loaded_from_same_path", "graph.entry_kind_checks", "valid.parameter_and_container_share_a_name", "kind.repoint-to-other-kind", "graph.identity_checks", "graph.inheritor_checks", "corrupt.reject-expected", "corrupt.accept-expected",
         "kind.rename-typeref", "kind.rename-paramref", "kind.rename-containerref", "kind.rename-baseref", "kind.dup-type", "kind.dup-param",
         "kind.dup-container-changed", "kind.delete-referenced", "kind.delete-unreferenced", "kind.base-cycle", "kind.nesting-cycle",
         "kind.self-base", "kind.self-nesting", "kind.repoint"]
@@ -37,6 +37,21 @@ ASSUMPTIONS = ["references made from criteria and length specifications are reso
 # ---------------------------------------------------------------------------------------------------------------------
 # (1) graph invariant
 # ---------------------------------------------------------------------------------------------------------------------
+_PATH = {"dir": None}
+
+
+def load_from_same_path(xml, prefix):
+    import os
+    import tempfile
+    from space_packet_parser.xtce.definitions import XtcePacketDefinition
+    if _PATH["dir"] is None:
+        _PATH["dir"] = tempfile.mkdtemp(prefix="vmon-c17-", dir=os.environ.get("VMON_SCRATCH"))
+    path = os.path.join(_PATH["dir"], "definition.xml")
+    with open(path, "wb") as f:
+        f.write(xml)
+    return XtcePacketDefinition.from_xtce(path, xtce_ns_prefix=prefix)
+
+
 def check_graph(ctx, defn, tag, doc=None):
     """returns list of (mechanism, message)"""
     from space_packet_parser.xtce import containers as SC
@@ -316,10 +331,17 @@ def run(ctx):
                                                                      ren(c.base) if c.base else c.base, c.criteria, c.abstract, c.short, c.long)
                                                         for c in doc.containers), doc.root, doc.system_name, doc.date)
                 ctx.count("valid.parameter_and_container_share_a_name")
+        if i % 3 == 1:
+            # a container listed first that embeds the root - a BASE container - and one of its children through ContainerRefEntry:
+            # base containers that are also nested must be the one registered object everywhere
+            kids = [c.name for c in doc.containers if c.base == doc.root][:1]
+            doc = ir.Doc(doc.types, doc.params, (ir.Container("ZZ_Archive", (("c", doc.root),) + tuple(("c", k_) for k_ in kids)),) + doc.containers,
+                         doc.root, doc.system_name, doc.date)
+            ctx.count("valid.base_container_also_nested")
         root = render.doc_el(doc, render.Opts(explicit=None, rng=rng))
         style = styles[i % 3]
         pfx = style[1] if style[0] == "prefix" else None
-        st = monitored(load_definition, render.serialize(root, style), pfx)
+        st = monitored(load_from_same_path if i % 2 else load_definition, render.serialize(root, style), pfx)
         ctx.count("evaluations")
         if st.exc is not None:
             ctx.violation(f"valid-document/load/{type(st.exc).__name__}", repr(st.exc), {"doc": i})
@@ -331,7 +353,12 @@ def run(ctx):
             sys.setrecursionlimit(1500)
             for kind, elkind, referenced, expect, tree in corruptions(root, doc, rng, ctx.size(70, 400)):
                 xml = render.serialize(tree, style)
-                s = monitored(load_definition, xml, pfx)
+                if ctx.counters["evaluations"] % 3 == 0:
+                    # the corrupted document replaces the valid one ON DISK under the same path and is loaded by path
+                    s = monitored(load_from_same_path, xml, pfx)
+                    ctx.count("corrupt.loaded_from_same_path")
+                else:
+                    s = monitored(load_definition, xml, pfx)
                 ctx.count("evaluations")
                 ctx.count(f"kind.{kind}")
                 ctx.count(f"corrupt.{expect}-expected")
@@ -352,3 +379,13 @@ def run(ctx):
             sys.setrecursionlimit(old)
         if i < 2:
             ctx.sample({"doc": i, "containers": len(doc.containers), "params": len(doc.params), "corruption_kinds": sorted({k for k in ctx.counters if k.startswith('kind.')})[:20]})
+
+
+def _cleanup():
+    import shutil
+    if _PATH["dir"] is not None:
+        shutil.rmtree(_PATH["dir"], ignore_errors=True)
+
+
+import atexit  # noqa: E402
+atexit.register(_cleanup)
